@@ -179,6 +179,21 @@ fn check_server(s: &Srv, out: &mut Out, which: &str) {
             other => out.add("C09", s, format!("RRQ with options was answered with {:?} instead of an OACK", other.map(|x| verif_replay::fmt_packet(&x.0)))),
         }
         {
+            // unknown options are ignored whatever their value looks like (RFC 2347), recognised ones next to them still count
+            let c = client();
+            let req = [&[0u8, 1][..], b"hello.bin\0octet\0multicast\0\0blksize\01024\0x-note\0not a number\0"].concat();
+            c.send_to(&req, s.addr).unwrap();
+            match recv(&c) {
+                Some((Packet::Oack(o), from)) => {
+                    if o != vec![opt(OptionType::BlockSize, 1024)] {
+                        out.add("C09", s, format!("RRQ with blksize=1024 between two unknown options with non-numeric values: OACK is {:?}, expected blksize=1024 only", o));
+                    }
+                    let _ = c.send_to(&Packet::Error { code: ErrorCode::NotDefined, msg: "stop".into() }.serialize().unwrap(), from);
+                }
+                other => out.add("C09", s, format!("RRQ with blksize=1024 between two unknown options with non-numeric values (multicast=\"\", x-note=\"not a number\") was answered with {:?} instead of an OACK", other.map(|x| verif_replay::fmt_packet(&x.0)))),
+            }
+        }
+        {
             // tsize on a read request is the file's true size whatever number the client sent
             let c = client();
             c.send_to(&rrq("hello.bin", vec![opt(OptionType::TransferSize, 700)]), s.addr).unwrap();
@@ -273,6 +288,22 @@ fn check_server(s: &Srv, out: &mut Out, which: &str) {
                 }
             }
         }
+    }
+    if s.cfg.overwrite && !s.cfg.read_only {
+        // a completed upload onto a longer existing file replaces the old content entirely (C06)
+        std::fs::write(s.recv_dir.join("longer.bin"), vec![0xEEu8; 3000]).unwrap();
+        let c = client();
+        c.send_to(&wrq("longer.bin", vec![]), s.addr).unwrap();
+        if let Some((Packet::Ack(0), from)) = recv(&c) {
+            c.send_to(&Packet::Data { block_num: 1, data: b"short new content".to_vec() }.serialize().unwrap(), from).unwrap();
+            let _ = recv(&c);
+            std::thread::sleep(Duration::from_millis(60));
+            let stored = std::fs::read(s.recv_dir.join("longer.bin")).unwrap_or_default();
+            if stored != b"short new content" {
+                out.add("C06", s, format!("with --overwrite, a completed 17-byte upload onto a 3000-byte file left {} bytes on disk: the old content was not replaced entirely", stored.len()));
+            }
+        }
+        let _ = std::fs::remove_file(s.recv_dir.join("longer.bin"));
     }
     if !s.cfg.read_only {
         let c = client();
